@@ -4,7 +4,7 @@ Require Extraction.
 Require Import ExtrOcamlBasic.
 From Quiver Require Import lang.Lang lang.LangSimplify lang.LangCompile.
 Extraction Language OCaml.
-Extraction "extracted/lang_model.ml" eval_program eval normalize compile_program collect_chains first_free_atom
+Extraction "extracted/lang_model.ml" eval_program eval normalize compile_program function_code collect_chains first_free_atom
   a_Ok a_Str b_integer_add b_integer_subtract b_integer_multiply b_integer_divide b_integer_modulo
   b_integer_compare b_integer_abs b_integer_gcd b_integer_sqrt b_binary_concat b_binary_length
   u_process u_type u_builtin u_module u_toplevel_tail u_typevar.
